@@ -179,8 +179,7 @@ func (c *control) readDir() {
 		case 'v':
 			var p any
 			if 0 <= c.argPos {
-				p = c.args[c.argPos]
-				c.argPos++
+				p = c.nextArg()
 			}
 			params = append(params, p)
 			hasParam = true
@@ -298,6 +297,18 @@ func (c *control) readDir() {
 	}
 }
 
+// nextArg returns the next argument and moves past it. An error is raised if
+// there are no more arguments.
+func (c *control) nextArg() slip.Object {
+	if c.argPos < 0 || len(c.args) <= c.argPos {
+		slip.ErrorPanic(c.scope, 0, "missing argument for directive at %d of %q", c.pos, c.str)
+	}
+	arg := c.args[c.argPos]
+	c.argPos++
+
+	return arg
+}
+
 func (c *control) readParam() []byte {
 	start := c.pos
 	for ; c.pos < c.end; c.pos++ {
@@ -344,8 +355,7 @@ func (c *control) dirMoney(colon, at bool, params []any) {
 	padchar := c.getCharParam(3, params, []byte{' '})
 	var val float64
 	if 0 <= c.argPos {
-		arg := c.args[c.argPos]
-		c.argPos++
+		arg := c.nextArg()
 		if r, ok := arg.(slip.Real); ok {
 			val = r.RealValue()
 		} else {
@@ -572,8 +582,7 @@ func (c *control) dirCall(colon, at bool, params []any) {
 	args := make(slip.List, 4)
 	args[0] = &slip.OutputStream{Writer: c}
 	if 0 <= c.argPos {
-		args[1] = c.args[c.argPos]
-		c.argPos++
+		args[1] = c.nextArg()
 	}
 	if colon {
 		args[2] = slip.True
@@ -765,7 +774,7 @@ func (c *control) dirEval(colon, at bool, params []any) {
 
 func (c *control) dirProc(colon, at bool, params []any) {
 	var ctrl []byte
-	if c.argPos < len(c.args) {
+	if 0 <= c.argPos && c.argPos < len(c.args) {
 		ss, ok := c.args[c.argPos].(slip.String)
 		if !ok {
 			slip.ErrorPanic(c.scope, 0, "recursive processing directive expected a control string at %d of %q", c.pos, c.str)
@@ -784,7 +793,7 @@ func (c *control) dirProc(colon, at bool, params []any) {
 		c2.argPos = c.argPos
 	} else {
 		var args slip.List
-		if c.argPos < len(c.args) && c.args[c.argPos] != nil { // nil is the empty list
+		if 0 <= c.argPos && c.argPos < len(c.args) && c.args[c.argPos] != nil { // nil is the empty list
 			var ok bool
 			if args, ok = c.args[c.argPos].(slip.List); !ok {
 				slip.ErrorPanic(c.scope, 0, "recursive processing directive expected an argument list at %d of %q", c.pos, c.str)
@@ -810,8 +819,7 @@ func (c *control) dirA(colon, at bool, params []any) {
 	if !colon && !at && len(params) == 0 { // bare ~A, the most common case
 		var arg slip.Object
 		if 0 <= c.argPos {
-			arg = c.args[c.argPos]
-			c.argPos++
+			arg = c.nextArg()
 		}
 		if ss, ok := arg.(slip.String); ok {
 			c.out = append(c.out, ss...)
@@ -835,8 +843,7 @@ func (c *control) dirC(colon, at bool, params []any) {
 		ok  bool
 	)
 	if 0 <= c.argPos {
-		arg, ok = c.args[c.argPos].(slip.Character)
-		c.argPos++
+		arg, ok = c.nextArg().(slip.Character)
 	}
 	if !ok {
 		slip.ErrorPanic(c.scope, 0, "character directive expected a character argument at %d of %q", c.pos, c.str)
@@ -867,8 +874,7 @@ func (c *control) dirInt(colon, at bool, params []any, base int) {
 		neg bool
 	)
 	if 0 <= c.argPos {
-		arg = c.args[c.argPos]
-		c.argPos++
+		arg = c.nextArg()
 	}
 	mincol := 0
 	padchar := []byte{' '}
@@ -936,8 +942,7 @@ func (c *control) dirInt(colon, at bool, params []any, base int) {
 func (c *control) getEFGarg(ff *floatFormatter) {
 	var arg slip.Object
 	if 0 <= c.argPos {
-		arg = c.args[c.argPos]
-		c.argPos++
+		arg = c.nextArg()
 	}
 	// golang big.Float fails to preserve digits when printing. The last few
 	// become noise even with a very high precision so no attempt is made to
@@ -1198,8 +1203,7 @@ func (c *control) dirP(colon, at bool, params []any) {
 	if c.argPos < 0 || len(c.args) <= c.argPos {
 		slip.ErrorPanic(c.scope, 0, "missing argument for Plural directive at %d of %q", c.pos, c.str)
 	}
-	arg := c.args[c.argPos]
-	c.argPos++
+	arg := c.nextArg()
 	n, ok := arg.(slip.Fixnum)
 	switch {
 	case ok && n == 1:
@@ -1231,8 +1235,7 @@ func (c *control) dirR(colon, at bool, params []any) {
 		words  []string
 		sep    string
 	)
-	arg := c.args[c.argPos]
-	c.argPos++
+	arg := c.nextArg()
 	switch ta := arg.(type) {
 	case slip.Fixnum:
 		digits = strconv.AppendInt(nil, int64(ta), 10)
@@ -1371,8 +1374,7 @@ func (c *control) dirAS(colon, at bool, params []any, p *slip.Printer) {
 		pad []byte
 	)
 	if 0 <= c.argPos {
-		arg = c.args[c.argPos]
-		c.argPos++
+		arg = c.nextArg()
 	}
 	switch ta := arg.(type) {
 	case nil:
@@ -1469,8 +1471,7 @@ func (c *control) dirT(colon, at bool, params []any) {
 func (c *control) dirW(colon, at bool, params []any) {
 	var arg slip.Object
 	if 0 <= c.argPos {
-		arg = c.args[c.argPos]
-		c.argPos++
+		arg = c.nextArg()
 	}
 	p := *slip.DefaultPrinter()
 	p.ScopedUpdate(c.scope)
@@ -1524,8 +1525,7 @@ func (c *control) dirCond(colon, at bool, params []any) {
 	var arg slip.Object
 	if colon || at || n < 0 {
 		if c.argPos < len(c.args) {
-			arg = c.args[c.argPos]
-			c.argPos++
+			arg = c.nextArg()
 		}
 	}
 	strs, def, pos := c.scanCond(c.str, c.pos)
@@ -1674,7 +1674,7 @@ func (c *control) dirIter(colon, at bool, params []any) {
 				break
 			}
 			c2.args = slip.List{}
-			if c.argPos < len(c.args) {
+			if 0 <= c.argPos && c.argPos < len(c.args) {
 				c2.args = c.objAsList(c.args[c.argPos], "iteration directive argument")
 				c.argPos++
 			}
@@ -1689,7 +1689,7 @@ func (c *control) dirIter(colon, at bool, params []any) {
 		// The iterator argument must be a list of lists with the each list
 		// element being consumed by one iteration.
 		var argList slip.List
-		if c.argPos < len(c.args) {
+		if 0 <= c.argPos && c.argPos < len(c.args) {
 			argList = c.objAsList(c.args[c.argPos], "iteration directive argument")
 			c.argPos++
 		}
@@ -1731,7 +1731,7 @@ func (c *control) dirIter(colon, at bool, params []any) {
 		// The iterator argument must be a list that is consumed progressively
 		// for each iteration.
 		c2.args = nil
-		if c.argPos < len(c.args) {
+		if 0 <= c.argPos && c.argPos < len(c.args) {
 			c2.args = c.objAsList(c.args[c.argPos], "iteration directive argument")
 			c.argPos++
 		}
